@@ -488,6 +488,14 @@ func (conn *Conn) postConnect(ctx context.Context, start bool) {
 			conn.wg.Add(1)
 			go conn.ping(ctx)
 		}
+		// The goroutines above only notice a cancelled context when they
+		// get back to their select, which they never do while blocked on
+		// the socket (e.g. a write to a server that has stopped reading).
+		// Closing the socket unblocks them, so have cancellation do that.
+		go func(gen uint64) {
+			<-ctx.Done()
+			conn.close(gen)
+		}(conn.generation)
 	}
 }
 
